@@ -437,11 +437,11 @@ pub fn catalogue(prop: &str, thorough: bool) -> Vec<Spec> {
     v.push(Spec { name: "c04/early-reply-single".into(), prop: "C04", callers: vec![vec![Call::Plain(11)]], server: vec![ReadHeader, Reply(0), ReadRest], helper: vec![], pipe: (24, 0), expect: Expect::AllOwn, bound: None, write_timeout_s: None });
     v.push(Spec { name: "c04/one-caller-two-calls".into(), prop: "C04", callers: vec![vec![Call::Plain(1), Call::Plain(2)], vec![Call::Plain(3)]], server: vec![Read, Read, Reply(1), Reply(0), Read, Reply(2)], helper: vec![], pipe: (0, 0), expect: Expect::AllOwn, bound: None, write_timeout_s: None });
     if thorough {
-        v.push(Spec { name: "c04/three-callers-rotated".into(), prop: "C04", callers: vec![vec![Call::Plain(1)], vec![Call::Plain(2)], vec![Call::Plain(3)]], server: vec![Read, Read, Read, Reply(2), Reply(0), Reply(1)], helper: vec![], pipe: (0, 0), expect: Expect::AllOwn, bound: None, write_timeout_s: None });
+        v.push(Spec { name: "c04/three-callers-rotated".into(), prop: "C04", callers: vec![vec![Call::Plain(1)], vec![Call::Plain(2)], vec![Call::Plain(3)]], server: vec![Read, Read, Read, Reply(2), Reply(0), Reply(1)], helper: vec![], pipe: (0, 0), expect: Expect::AllOwn, bound: Some(2), write_timeout_s: None });
     }
     // ---------------- C05: frames from concurrent callers + a notify never interleave
     v.push(Spec { name: "c05/two-calls+notify/quota24".into(), prop: "C05", callers: vec![vec![Call::Plain(5)], vec![Call::Notify(6), Call::Plain(7)]], server: vec![Read, Read, Read, Reply(0), Reply(1), Reply(2)], helper: vec![], pipe: (0, 24), expect: Expect::AllOwn, bound: None, write_timeout_s: None });
-    v.push(Spec { name: "c05/two-calls/capacity1".into(), prop: "C05", callers: two(8, 9), server: vec![Read, Read, Reply(1), Reply(0)], helper: vec![], pipe: (1, 0), expect: Expect::AllOwn, bound: None, write_timeout_s: None });
+    v.push(Spec { name: "c05/two-calls/capacity1".into(), prop: "C05", callers: two(8, 9), server: vec![Read, Read, Reply(1), Reply(0)], helper: vec![], pipe: (1, 0), expect: Expect::AllOwn, bound: Some(2), write_timeout_s: None });
     // (a write timeout interrupting a frame larger than the writer's buffer is decided over real
     // TCP by the mc part: it needs the peer to resume reading between two writes)
     // ---------------- C06: failures with calls in flight, then a later call
